@@ -441,6 +441,13 @@ func trustedBase(prop string) []string {
 		tb = append(tb, "float->integer conversion modelled as gc/amd64 implements it (CVTTSD2SQ/CVTTSD2SL integer-indefinite), implementation-defined in the Go spec")
 	}
 	switch prop {
+	case "C08", "C09":
+		tb = append(tb, "order and accuracy lemmas of the float conversions: standard model of IEEE-754 rounding (every correctly rounded operation is rnd(exact), rnd constrained by relative error 2^-p, monotonicity, exactness on integers up to 2^p); clipping, zero, injectivity and the non-positive round trip in the FloatingPoint theory")
+	}
+	if prop == "C09" {
+		tb = append(tb, "exact scaled-integer model of the extracted kernels (exactfp.go: binades, signs and comparisons enumerated by the tool, one QF_LIA query): the enumeration is trusted like the VC generator; guarded by cover obligations, cross-checked by the FloatingPoint-theory lemma at 8 bit and by exhaustive native execution of the real code at 16 and 32 bit")
+	}
+	switch prop {
 	case "C17", "C01", "C02", "C04", "C05", "C13", "C14", "C20":
 		tb = append(tb, "float64 arithmetic in Length/ChannelLength/Frequency: standard model (correctly rounded results: relative error 2^-53, monotone rounding, integers up to 2^53 exact); math.Ceil/math.Round by their mathematical definitions")
 	}
